@@ -98,13 +98,16 @@ HugeSane == done = "huge" =>
                     W!ToNat(HugeSize("array", elem, n)) = SizeOf([k |-> "array", n |-> W!ToNat(n), e |-> Prim(elem)])
               /\ HugeSize("nested", elem, n) = W!Add(HugeSize("array", elem, n), HugeSize("array", elem, n))
 RuleSane == done = "struct" =>
+              /\ SizeOfT(S, "declared", 8) = SizeOf(S)          \* the parameterised layout IS the native one for 8-byte pointers
+              /\ SizeOfT(S, "declared", 4) <= SizeOf(S)
               /\ SizeOf([k |-> "array", n |-> 3, e |-> S]) = 3 * SizeOf(S)
               /\ SizeOf(S) % AlignOf(S) = 0
               /\ \A i \in 1..Len(ms) : SizeOf(S) >= SizeOf(ms[i])
 EmitCase ==
     /\ done = "struct" => PrintT(<<"CASE", ToJson([kind |-> "struct", ms |-> [i \in 1..Len(ms) |-> Name(ms[i])],
                                                    size |-> SizeOf(S), align |-> AlignOf(S),
-                                                   size2 |-> SizeOfM(S, "members")])>>)
+                                                   size2 |-> SizeOfM(S, "members"),
+                                                   wsize |-> SizeOfT(S, "declared", 4), wsize2 |-> SizeOfT(S, "members", 4)])>>)
     /\ done = "huge" => LET n == HugeLen(len, elem, ms[1]) IN
                        PrintT(<<"CASE", ToJson([kind |-> "huge", total |-> len, delta |-> ms[1], form |-> mode, elem |-> elem,
                                                 n |-> n, size |-> HugeSize(mode, elem, n),
